@@ -58,7 +58,7 @@ CHECKS = {
     ),
     "C09": dict(
         level="exploration",
-        text="Three-state lifecycle model (absorbing / done / retired) per handle for Poly1305, Hmac over 18 digests, legacy BLAKE2b/BLAKE2s through Mac (keyed and unkeyed) and the 18 legacy digest wrappers: scheduler-chosen input, result, raw_result, reset, reset_with_key, fork over up to 3 handles, with the misuse faults 'result again' and 'input after result' injected in half of the runs. Oracles: first result == a fresh object of the same type and key fed the same bytes in one call (and == the one-call hash for digest wrappers, == the static one-call function for keyed legacy BLAKE2); second result == first or a loud failure; input after result and result into a wrong-size buffer must fail loudly; reset keeps the key; a re-key of a legacy BLAKE2 object with an over-long key is refused and must leave key, bytes fed and lifecycle state as they were (checked by what follows: reset, input, result); a third of the valid re-keys use a key related to the one in use (zero-extended or cut, all zeros, identical, last bit flipped), usually followed by message, result and the trait-level reset that re-keys from the stored copy; one run in 300 is a long history (300-700 calls). After a call that was refused loudly the history goes on with the same object and an unchanged model: later calls may fail loudly (the handle is then retired) but a call that returns must return the right value. 1M runs quick, 80M thorough.",
+        text="Three-state lifecycle model (absorbing / done / retired) per handle for Poly1305, Hmac over 18 digests, legacy BLAKE2b/BLAKE2s through Mac (keyed and unkeyed) and the 18 legacy digest wrappers: scheduler-chosen input, result, raw_result, reset, reset_with_key, fork over up to 3 handles, with the misuse faults 'result again' and 'input after result' injected in half of the runs; one run in six uses a degenerate key (all zero, first or second half zero, all ones). Oracles: first result == a fresh object of the same type and key fed the same bytes in one call (and == the one-call hash for digest wrappers, == the static one-call function for keyed legacy BLAKE2); second result == first or a loud failure; input after result and result into a wrong-size buffer must fail loudly; reset keeps the key; a re-key of a legacy BLAKE2 object with an over-long key is refused and must leave key, bytes fed and lifecycle state as they were (checked by what follows: reset, input, result); a third of the valid re-keys use a key related to the one in use (zero-extended or cut, all zeros, identical, last bit flipped), usually followed by message, result and the trait-level reset that re-keys from the stored copy; one run in 300 is a long history (300-700 calls). After a call that was refused loudly the history goes on with the same object and an unchanged model: later calls may fail loudly (the handle is then retired) but a call that returns must return the right value. 1M runs quick, 80M thorough.",
         ref="DESIGN.md §4.8",
         note="Self-referential ground truth ('behaves like a freshly constructed one'). A refused call does not end the history: 'no history makes an object return a value that is not the MAC or digest of the bytes fed' includes histories with refused calls; what is tolerated after a refusal is a loud failure, never a wrong value. Keyed legacy BLAKE2 is driven through Mac only (Digest::reset on a keyed object is documented as 'state after new').",
         technique=TECH + "; oracle = lifecycle state machine + fresh object fed in one call",
@@ -72,21 +72,21 @@ CHECKS = {
     ),
     "C16": dict(
         level="exploration",
-        text="Cross-build replay: the simulator is built four times from the same tree (baseline = SSE2 ChaCha + portable SHA-256/BLAKE2, +sse4.1, +avx, +avx2; features the host CPU lacks are skipped and reported) and every binary executes the SAME seeds of hashbulk (SHA-224/256, BLAKE2b/2s with 1..=20 blocks per update at every alignment 0..31 after every partial-buffer fill, keyed/unkeyed), hashctx, ctrjump, streampos, aeadflow, hmacsplit, polysplit, lifecycle, ctrwrap and kdfprobe (HKDF/PBKDF2/scrypt/Argon2, outputs into dirty misaligned buffers, HKDF also with digest objects that carry pending bytes or were already finalised, PBKDF2 over 14 PRFs of every output-length class), and x25519hs / arithprog / sigchannel / ctprobe; the curve scenarios are also replayed in the combined build force-32bits + avx2; per-run transcripts (FNV-128 of every byte the real code returned) are diffed against the baseline, a divergence is located to a run, ddmin-minimised with 'the two binaries disagree' as predicate and replayed in fresh processes. In every binary the active (SSE2) ChaCha engine is additionally run in lock-step with the portable engine (hook H3): init for every key/nonce length, rounds, add_back, counters, outputs.",
+        text="Cross-build replay: the simulator is built five times from the same tree (baseline = SSE2 ChaCha + portable SHA-256/BLAKE2, +sse4.1, +avx, +avx2, and -C target-cpu=native = everything else the host has, here SHA-NI and AVX-512VL; features the host CPU lacks are skipped and reported) and every binary executes the SAME seeds of hashbulk (SHA-224/256, BLAKE2b/2s with 1..=20 blocks per update at every alignment 0..31 after every partial-buffer fill, keyed/unkeyed), hashctx, ctrjump, streampos, aeadflow, hmacsplit, polysplit, lifecycle, ctrwrap and kdfprobe (HKDF/PBKDF2/scrypt/Argon2, outputs into dirty misaligned buffers, HKDF also with digest objects that carry pending bytes or were already finalised, PBKDF2 over 14 PRFs of every output-length class), and x25519hs / arithprog / sigchannel / ctprobe; the curve scenarios are also replayed in the combined build force-32bits + avx2; per-run transcripts (FNV-128 of every byte the real code returned) are diffed against the baseline, a divergence is located to a run, ddmin-minimised with 'the two binaries disagree' as predicate and replayed in fresh processes. In every binary the active (SSE2) ChaCha engine is additionally run in lock-step with the portable engine (hook H3): init for every key/nonce length, rounds, add_back, counters, outputs.",
         ref="DESIGN.md §4.10",
         note="One seed is one execution whatever the compile-time dispatch selected. A defect shared by all paths changes all transcripts equally and is not C16's business. AVX-512/SHA-NI/aarch64 paths do not exist or are not reachable on this host.",
-        technique="deterministic simulation replayed across build configurations: same seeded schedules in 4 builds, transcript equality, ddmin with a two-binary oracle; engine lock-step in-process",
+        technique="deterministic simulation replayed across build configurations: same seeded schedules in 5 builds (+1 for the curve scenarios), transcript equality, ddmin with a two-binary oracle; engine lock-step in-process",
     ),
     "C17": dict(
         level="exploration",
-        text="Cross-build replay across {default 64-bit limbs, --features force-32bits}. 'The library compiles' is checked for real (path dependency, no lint capping): a build failure is a violation with the compiler output as replay artefact. Then both binaries execute the same seeds of sigchannel (Ed25519 keygen/sign/verify verdict vector over the whole channel catalogue incl. S+kL and small-order forgeries), x25519hs (two-party handshake with substituted edge-value u-coordinates, raw curve25519/curve25519_base, ed25519::exchange) and arithprog (seeded straight-line programs over the public Fe/Scalar/Ge API inside the documented operand discipline; scalar decoders and wide reductions are fed boundary families around multiples of L and sparse 512-bit values; scalars with runs of one repeated byte - 0x77, 0x88, 0xff, ... - over a stretch or exactly one 64-bit word, so that window recodings carry through the whole run; the public constants Fe::{ZERO, ONE, SQRTM1, D, D2} are loaded and observed); transcripts are diffed run by run, divergences minimised with the two binaries as oracle.",
+        text="Cross-build replay across {default 64-bit limbs, --features force-32bits}. 'The library compiles' is checked for real (path dependency, no lint capping): a build failure is a violation with the compiler output as replay artefact. Then both binaries execute the same seeds of sigchannel (Ed25519 keygen/sign/verify verdict vector over the whole channel catalogue incl. S+kL and small-order forgeries), x25519hs (two-party handshake with substituted edge-value u-coordinates, raw curve25519/curve25519_base, ed25519::exchange) and arithprog (seeded straight-line programs over the public Fe/Scalar/Ge API inside the documented operand discipline; scalar decoders and wide reductions are fed boundary families around multiples of L and sparse 512-bit values; scalars with runs of one repeated byte - 0x77, 0x88, 0xff, ... - over a stretch or exactly one 64-bit word, so that window recodings carry through the whole run; the public constants Fe::{ZERO, ONE, SQRTM1, D, D2} are loaded and observed; == and != are both recorded); transcripts are diffed run by run, divergences minimised with the two binaries as oracle.",
         ref="DESIGN.md §4.11",
         note="arithprog is seeded program generation executed in two builds and diffed (nothing scheduled or faulted) and the evidence says so. Restricted to the API subset common to both backends; scalar::muladd is crate-private and reached through ed25519::signature only.",
         technique="deterministic simulation replayed across the two limb backends: same seeded workloads in 2 builds, transcript equality, ddmin with a two-binary oracle; plus 'it compiles'",
     ),
     "C20": dict(
         level="fault_enumeration",
-        text="Three build profiles of the simulator (plain release; release with overflow checks and debug assertions; dev) execute the same seeds. (1) misuse: the complete catalogue of invalid calls (45 entry-point families, 467 (entry, argument) pairs) is enumerated in every run, each call injected after a random valid history of the object concerned; every call must panic or return Err, none may return a value; its mirror image `validedge` (58 calls exactly on the legal side of the documented limits, e.g. ScryptParams::new with the largest legal p for 24 values of r) must return normally in every profile. (2) ctrwrap / lenwrap: BLAKE2 byte counters (hook H1) preset next to 2^32 / 2^64 and SHA-1/SHA-2/RIPEMD-160 message-length counters (hook H4) preset next to 2^29..2^93 bytes, then a fragmented history across the boundary: no panic, counter getter invariant after every op, digest equal to the one-call digest under the same preset. (3) every other scenario's valid operations (hash contexts, stream ciphers incl. counter jumps next to 2^32-1, DRG, Poly1305, AEAD, HMAC, lifecycle, Ed25519, X25519, curve programs, KDFs): any panic on a valid operation in any profile is a violation, and the transcripts of the checked and dev builds must equal the plain release one. The public constant-time helper API is run the same way (scenario ctprobe: structured operand pairs, no value oracle - that would be C18). Thorough tier adds a Miri run (bounds, alignment, initialisation) of ~100 seeded histories (sources, destinations and in-place buffers at independent misalignments).",
+        text="Three build profiles of the simulator (plain release; release with overflow checks and debug assertions; dev) execute the same seeds. (1) misuse: the complete catalogue of invalid calls (45 entry-point families, 497 (entry, argument) pairs) is enumerated in every run, each call injected after a random valid history of the object concerned; every call must panic or return Err, none may return a value; its mirror image `validedge` (63 calls exactly on the legal side of the documented limits, e.g. ScryptParams::new with the largest legal p for 29 values of r up to 2^30-1) must return normally in every profile. (2) ctrwrap / lenwrap: BLAKE2 byte counters (hook H1) preset next to 2^32 / 2^64 and next to the sign boundaries 2^31 / 2^63 and SHA-1/SHA-2/RIPEMD-160 message-length counters (hook H4) preset next to 2^29..2^93 bytes, then a fragmented history across the boundary: no panic, counter getter invariant after every op, digest equal to the one-call digest under the same preset. (3) every other scenario's valid operations (hash contexts, stream ciphers incl. counter jumps next to 2^32-1, DRG, Poly1305, AEAD, HMAC, lifecycle, Ed25519, X25519, curve programs, KDFs): any panic on a valid operation in any profile is a violation, and the transcripts of the checked and dev builds must equal the plain release one. The public constant-time helper API is run the same way (scenario ctprobe: structured operand pairs, no value oracle - that would be C18). Thorough tier adds a Miri run (bounds, alignment, initialisation) of ~100 seeded histories (sources, destinations and in-place buffers at independent misalignments).",
         ref="DESIGN.md §4.12",
         note="The catalogue is enumerated completely (fault_enumeration); histories are sampled. A panic is observed through catch_unwind; an abort, fault or endless loop kills or stalls the simulator process: the driver localises the run (bisection over run ranges, or the simulator's watchdog for a hang), shortens its trace and reports it with a replay file (kind 'crashed'). Hash length counters are preset through hook H4 (scenario lenwrap). Miri runs with -Zmiri-disable-stacked-borrows (see DESIGN.md).",
         technique="deterministic simulation with fault injection replayed across build profiles: enumerated misuse catalogue inside seeded valid histories, counter-preset clock jumps, transcript equality across 3 profiles",
